@@ -339,6 +339,10 @@ def _signatures(ctx):
              r['final']['format_match'] == ('value', True)]
         want = [f for f in formats.SPECS if f != 'raw' and f != 'vmdk' and
                 formats.SPECS[f](imgs[key]).match]
+        if imgs[key][:4] == b'KDMV':
+            want.append('vmdk')     # the sparse-extent magic
+        else:
+            m = [x for x in m if x != 'vmdk']   # text descriptors: by content
         if len(want) >= 2:
             multi += 1
         rep.check('R3.4', 'overlay %s' % key[5:], sorted(m) == sorted(want),
